@@ -133,6 +133,8 @@ def terminate(sc):
     elif situation == 'swallow':
         running = [pool.apply_async(targets.swallow_then_return, (100 + i, 20)) for i in range(procs)]
     settled = situation == 'idle'
+    if situation == 'idle':
+        time.sleep(0.6)          # the workers have settled into waiting for a task
     if situation != 'idle':
         # every worker must be inside a task before the call (a worker still idle may be leaving on
         # its own when the signal arrives -- the F17 window); bounded wait, outcome recorded
